@@ -174,7 +174,12 @@ class World:
             return None
         hdr = _norm_header(st)
         if spec.header != hdr:
-            raise Undecided(f'loop #{ordinal} header changed: {hdr!r} (contract has {spec.header!r})')
+            # a for-loop whose TARGET is unchanged but which iterates over another expression keeps its contract: the loop rule is applied to the collection the code
+            # really iterates over, so the invariant / postcondition is re-proved (or refuted) for it.  Anything else (renamed target, while condition) is undecided.
+            same_target = isinstance(st, ast.For) and spec.header.startswith('for ' + ast.unparse(st.target) + ' in ')
+            if not same_target:
+                raise Undecided(f'loop #{ordinal} header changed: {hdr!r} (contract has {spec.header!r})')
+            I.dropped.append(f'loop #{ordinal} iterates over {ast.unparse(st.iter)!r} (contract written for {spec.header!r})')
         return spec
 
     def unpack_hook(self, I, v, n):
